@@ -1097,3 +1097,229 @@ def rule_tokchange_args(prog):
     if n < 3:
         out.missing("TokenChange::{new_token_pos,deletes,overlaps} call sites")
     return out
+
+
+# ------------------------------------------------------------------ INFO-EXTENT
+
+def rule_info_extent(prog):
+    """A node whose range is the union of its own tokens and a *prefix* node (`info.extend_range(&prefix_info)`: an array
+    access and the variable in front of it) must be extended with the range of that prefix alone.  The prefix info comes
+    out of an `info(P)` wrapper as `(output of P, info)`: if the output bound next to it contains a repetition (a Vec),
+    the wrapper encloses the repeated suffix parsers too and every element is extended to the end of the whole chain."""
+    out = Out("INFO-EXTENT")
+    c = prog.front
+    n = 0
+    for b in c.bodies:
+        f = c.file_of(b["sp"])
+        if not (f.endswith("parser.rs") or "/parser/" in f) or "/tests" in f:
+            continue
+        calls = [m for m in hir.nodes(b["body"], "MethodCall") if m["m"] == "extend_range" and m["args"]]
+        if not calls:
+            continue
+
+        def find_tuple(pat, bid):
+            """the tuple pattern that directly contains binding bid -> list of sibling patterns"""
+            pat = hir.pat_strip(pat)
+            if not isinstance(pat, dict):
+                return None
+            if pat.get("k") in ("Tuple", "TupleStruct"):
+                for q in pat["pats"]:
+                    qs = hir.pat_strip(q)
+                    if qs.get("k") == "Binding" and qs["id"] == bid:
+                        return [x for x in pat["pats"] if x is not q]
+                for q in pat["pats"]:
+                    r = find_tuple(q, bid)
+                    if r is not None:
+                        return r
+            elif pat.get("k") == "Struct":
+                for fl in pat["fields"]:
+                    r = find_tuple(fl["pat"], bid)
+                    if r is not None:
+                        return r
+            return None
+
+        for m in calls:
+            pl = hir.path_local(hir.strip_ref(m["args"][0]))
+            sib = None
+            if pl:
+                for l in hir.nodes(b["body"], "Let"):
+                    sib = find_tuple(l["pat"], pl["id"])
+                    if sib is not None:
+                        break
+                if sib is None:
+                    for clo in hir.nodes(b["body"], "Closure"):
+                        for pp in clo["params"]:
+                            sib = sib or find_tuple(pp, pl["id"])
+            n += 1
+            if sib is None:
+                out.add(b["d"], "a node is extended with the range of the prefix node alone", None, c.loc(m["sp"]), "origin of the prefix info not found")
+                continue
+            rep = [bd for q in sib for bd in hir.pat_bindings(q) if "Vec<" in c.tstr(bd["bt"])]
+            out.add(b["d"], "a node is extended with the range of the prefix node alone", not rep, c.loc(m["sp"]),
+                    "`%s` is the info of a parser whose output also contains the repetition `%s`: it covers the whole chain, so every "
+                    "inner element gets the range of the outermost one" % (pl["name"], rep[0]["name"] if rep else ""))
+    if n == 0:
+        out.missing("AstInfo::extend_range uses in the parser")
+    return out
+
+
+# ------------------------------------------------------------------ REUSE (incremental parser: reuse of old nodes)
+
+def _affected_fn(prog):
+    return prog.body("spl_frontend::parser::utility::affected")
+
+
+def rule_reuse(prog):
+    """Incremental parsing reuses an old node by advancing the token stream by the node's old length from the *current*
+    location.  Three structural conditions make that sound:
+    (aligned)  the reuse exit of `affected` is only reached if the current location is exactly where the node starts in the new
+               token stream: the location is compared with new_token_pos(start) for equality (or in both directions);
+    (input)    a parser that gives up with an `Affected` error hands back the input it was entered with (the caller retries
+               from there), never the input of an inner failure;
+    (pairing)  `inc_references` (the stack of old Reference offsets `get_old_reference()` sums up) is popped on an exit exactly
+               when it was pushed on entry."""
+    out = Out("REUSE")
+    c = prog.front
+    aff = _affected_fn(prog)
+    if aff is None:
+        out.missing("parser::utility::affected")
+        return out
+    scope = [b for b in c.bodies if b["p"] == aff["p"] or b["p"].startswith(aff["p"] + "::")]
+    # ---- (aligned)
+    ops = set()
+    n_cmp = 0
+    for b in scope:
+        defs = _let_defs(b["body"])
+
+        def mentions_new_pos(e, depth=0):
+            e = hir.strip_ref(e)
+            if any(m["m"] == "new_token_pos" for m in hir.nodes(e, "MethodCall")):
+                return True
+            pl = hir.path_local(e)
+            if pl and pl["id"] in defs and depth < 4:
+                return mentions_new_pos(defs[pl["id"]], depth + 1)
+            return False
+
+        def is_location(e, depth=0):
+            e = hir.strip_ref(e)
+            if e.get("k") == "MethodCall" and e["m"] == "location_offset":
+                return True
+            pl = hir.path_local(e)
+            if pl:
+                if pl["id"] in defs and depth < 4:
+                    return is_location(defs[pl["id"]], depth + 1)
+                return pl["name"] in ("location_offset", "location") or "location" in pl["name"]
+            return False
+
+        for cmp_ in hir.nodes(b["body"], "Binary"):
+            if cmp_["op"] not in ("<", "<=", ">", ">=", "==", "!="):
+                continue
+            l, r = cmp_["l"], cmp_["r"]
+            if is_location(l) and mentions_new_pos(r):
+                ops.add(cmp_["op"])
+                n_cmp += 1
+            elif is_location(r) and mentions_new_pos(l):
+                ops.add({"<": ">", ">": "<", "<=": ">=", ">=": "<=", "==": "==", "!=": "!="}[cmp_["op"]])
+                n_cmp += 1
+    advances = [m for b in scope for m in hir.nodes(b["body"], "MethodCall") if m["m"] == "advance"]
+    if not advances:
+        out.add("parser::utility::affected", "reuse exit found", None, c.loc(aff["sp"]), "no `advance(..)` in affected(): other construction")
+    else:
+        two_sided = bool(ops & {"==", "!="}) or (bool(ops & {"<", "<="}) and bool(ops & {">", ">="}))
+        out.add("parser::utility::affected", "an old node is reused only at the location where it starts in the new token stream", two_sided,
+                c.loc(advances[0]["sp"]),
+                "`input.advance(old length)` re-anchors the old node at the current location, but the location is only compared with "
+                "new_token_pos(start) by %s: when a predecessor shrank (its tail is now loose tokens) the location lies *before* the "
+                "node's tokens and the node is reused on top of foreign tokens" % (sorted(ops) or "nothing"), ("aligned",))
+    # ---- (input)
+    # functions that build an Affected error from one of their parameters
+    builders = {}
+    for b in c.bodies:
+        f = c.file_of(b["sp"])
+        if not (f.endswith("parser.rs") or "/parser/" in f) or "/tests" in f:
+            continue
+        for st in hir.nodes(b["body"], "Struct"):
+            if not (st.get("adt") or "").endswith("error::ParserError"):
+                continue
+            fl = {x["name"]: x["e"] for x in st["fields"]}
+            kd = hir.path_def(hir.strip(fl.get("kind", {})))
+            if not kd or not (kd.get("ctor_of") or kd.get("p", "")).endswith("ParserErrorKind::Affected"):
+                continue
+            pl = hir.path_local(hir.strip_ref(fl.get("input", {})))
+            ids = _param_ids(b)
+            if pl and pl["id"] in ids and b["k"] in ("fn", "assoc_fn"):
+                builders[b["p"]] = ids.index(pl["id"])
+    n_in = 0
+    for b in scope:
+        for clo in [x for x in hir.nodes(b["body"], "Closure")] or []:
+            pids = set()
+            for pp in clo["params"]:
+                for bd in hir.pat_bindings(pp):
+                    pids.add(bd["id"])
+            defs = _let_defs(clo["body"])
+
+            def own_input(e, depth=0):
+                e = hir.strip_ref(e)
+                if e.get("k") == "MethodCall" and e["m"] == "clone":
+                    e = hir.strip_ref(e["recv"])
+                pl = hir.path_local(e)
+                if pl and pl["id"] in pids:
+                    return True
+                if pl and pl["id"] in defs and depth < 4:
+                    return own_input(defs[pl["id"]], depth + 1)
+                return False
+
+            for call in hir.nodes(clo["body"], "Call"):
+                cal = hir.callee(call) or ""
+                if cal in builders and builders[cal] < len(call["args"]):
+                    n_in += 1
+                    a = call["args"][builders[cal]]
+                    out.add("parser::utility::affected", "an Affected error hands back the input the parser was entered with", own_input(a),
+                            c.loc(call["sp"]), "the Affected error carries `%s`: the caller (`expect`) retries the node from scratch at that "
+                            "input - the point where an inner parser failed - instead of at the node's first token"
+                            % (place(hir.strip_ref(a)) or "?"), ("input",))
+    if n_in == 0:
+        out.add("parser::utility::affected", "an Affected error hands back the input the parser was entered with", None, c.loc(aff["sp"]), "no Affected error construction found")
+    # ---- (pairing)
+    n_pp = 0
+    for b in c.bodies:
+        f = c.file_of(b["sp"])
+        if not (f.endswith("parser.rs") or "/parser/" in f) or "/tests" in f or b["k"] == "closure":
+            continue
+        pushes, pops = [], []
+        for m, parents in hir.walk(b["body"]):
+            if m.get("k") == "MethodCall" and m["m"] in ("push", "pop"):
+                r = hir.strip_ref(m["recv"])
+                if r.get("k") == "Field" and r["name"] == "inc_references":
+                    (pushes if m["m"] == "push" else pops).append((m, parents))
+        if not pushes:
+            continue
+        # is the push conditional on an Option parameter being Some?
+        opt_ids = set()
+        for pp in b["params"]:
+            for bd in hir.pat_bindings(pp):
+                if c.tstr(bd["bt"]).replace(" ", "").startswith("std::option::Option<"):
+                    opt_ids.add(bd["id"])
+        for l in hir.nodes(b["body"], "Let"):
+            if l["pat"].get("k") == "Binding" and l.get("init") is not None and any(
+                    (hir.path_local(x) or {}).get("id") in opt_ids for x in hir.nodes(l["init"], "Path")):
+                if c.tstr(l["pat"]["bt"]) == "bool":
+                    opt_ids.add(l["pat"]["id"])
+
+        def guarded(parents):
+            for p in parents:
+                if p.get("k") == "If" and any((hir.path_local(x) or {}).get("id") in opt_ids for x in hir.nodes(p["cond"], "Path")):
+                    return True
+            return False
+
+        push_cond = all(guarded(ps) for _, ps in pushes)
+        for m, ps in pops:
+            n_pp += 1
+            ok = guarded(ps) == push_cond
+            out.add(b["d"], "inc_references is popped on an exit exactly when it was pushed on entry", ok, c.loc(m["sp"]),
+                    "the push happens only for `this = Some(..)`, this pop happens %s: after a failed parse from scratch the stack has lost "
+                    "an offset of an enclosing Reference, `get_old_reference()` is too small and later old nodes look aligned at "
+                    "the wrong place" % ("only then too" if guarded(ps) else "always"), ("pairing",))
+    if n_pp == 0:
+        out.missing("inc_references push/pop sites")
+    return out
